@@ -141,7 +141,7 @@ func vc_Streamer_parseEvents_requires(s *Streamer, ctx context.Context, events <
 func vc_Streamer_parseEvents_loop1_inv(pos Position, autocommit bool, tranEvents []*StreamEvent) bool {
 	return vspec.Owned(tranEvents) && // the buffer is never memory that existed before the call,
 		// C08: nor memory that was handed to the handler: it is nil or was allocated after the last delivery
-		(tranEvents == nil || vspec.BaseOf(tranEvents) > vcDelivered) &&
+		vcDelivered <= vspec.Watermark() && (tranEvents == nil || vspec.BaseOf(tranEvents) > vcDelivered) &&
 		pos == vcAcc && // C04: the position to resume from is the accepted boundary
 		autocommit == !vcOpen && // C02: grouping state
 		len(tranEvents) == vcBuf && (vcOpen || vcBuf == 0) &&
